@@ -92,6 +92,6 @@ func (eh *wwwAuthenticateErrorHandler) WithConfig(rawConfig map[string]any) (Err
 
 	return &wwwAuthenticateErrorHandler{
 		id:    eh.id,
-		realm: conf.Realm,
+		realm: x.IfThenElse(len(conf.Realm) != 0, conf.Realm, "Please authenticate"),
 	}, nil
 }
